@@ -120,14 +120,27 @@ def digest(uend, stats_list):
     return h.hexdigest(), len(items)
 
 
+def window_ok(stats, t0, Tend, dt):
+    """every statistics entry of a run carries a time inside the window of that run (start or end time of one of its steps)"""
+    for k in stats:
+        if k.time is None or str(k.type).startswith('timing'):
+            continue
+        # (a step may end beyond Tend when step sizes are adapted, so only entries before the start are out of window)
+        if k.time < t0 - 1e-9 * dt:
+            return False
+    return True
+
+
 def logical_run(name, how, ctrl_a, ctrl_b=None):
-    """how: 'full' | ('split', k blocks). Returns (digest, n_items, detail)."""
+    """how: 'full' | ('split', k blocks). Returns a tuple of digests: full run -> ((digest, n), 'ok'|'window');
+    split run -> (digest of the merged run, digest of leg 1, digest of leg 2, 'ok'|'window')."""
     P, cp, desc, dt = config(name)
     Tend = NBLOCKS * P * dt
     u0 = u_init(ctrl_a)
     if how == 'full':
         uend, stats = ctrl_a.run(u0=u0, t0=0.0, Tend=Tend)
-        return digest(uend, [stats])
+        stats = dict(stats)
+        return (digest(uend, [stats]), 'ok' if window_ok(stats, 0.0, Tend, dt) else 'window')
     k = how[1]
     from pySDC.helpers.stats_helper import get_sorted
 
@@ -137,16 +150,33 @@ def logical_run(name, how, ctrl_a, ctrl_b=None):
     # the time the controller itself reached (end of the last step), as logged
     tmid = max(t for t, _ in get_sorted(s1, type='u', sortby='time'))
     u2, s2 = (ctrl_b or ctrl_a).run(u0=u1, t0=tmid, Tend=Tend)
-    return digest(u2, [s1, dict(s2)])
+    s2 = dict(s2)
+    win = 'ok' if window_ok(s1, 0.0, tmid, dt) and window_ok(s2, tmid, Tend, dt) else 'window'
+    return (digest(u2, [s1, s2]), digest(u1, [s1]), digest(u2, [s2]), win)
 
 
 def reference(name):
-    """digest of the uninterrupted run executed alone in a fresh subprocess."""
+    """digests of the uninterrupted run and of both legs of every split, each executed alone in a fresh subprocess
+    on fresh controllers: {'full': ..., 'split1': (merged, leg1, leg2), 'split2': ...}"""
     env = dict(os.environ)
-    out = subprocess.run([sys.executable, '-m', 'vf.props.c19', '--ref', name], capture_output=True, text=True, cwd=common.ROOT, env=env, timeout=600)
+    out = subprocess.run([sys.executable, '-m', 'vf.props.c19', '--ref', name], capture_output=True, text=True, cwd=common.ROOT, env=env, timeout=900)
     if out.returncode != 0:
         raise RuntimeError(f'reference subprocess failed for {name}: {out.stderr[-500:]}')
-    return tuple(json.loads(out.stdout.strip().splitlines()[-1]))
+    d = json.loads(out.stdout.strip().splitlines()[-1])
+    return {k: _tup(v) for k, v in d.items()}
+
+
+def _tup(x):
+    return tuple(_tup(v) for v in x) if isinstance(x, (list, tuple)) else x
+
+
+def expected(ref, how):
+    """what the digest tuple of an observation must be"""
+    if how == 'full':
+        return (ref['full'], 'ok')
+    k = how.split('@')[1]
+    m, l1, l2 = ref['split' + k]
+    return (ref['full'], l1, l2, 'ok')
 
 
 def sequences(depth, names):
@@ -202,6 +232,12 @@ def _exec_safe(seq):
         return seq, [(-1, None, 'exception', (type(e).__name__ + ': ' + str(e)[:200], 0))]
 
 
+def differs_in(dg, ref):
+    names = ['whole run', 'first leg', 'second leg', 'time window of the entries'] if len(ref) == 4 else ['whole run', 'time window of the entries']
+    names = [names[0]] + names[1:]
+    return [names[i] for i in range(min(len(ref), len(dg))) if _tup(dg[i]) != _tup(ref[i])]
+
+
 def classify(seq, idx, how):
     """Signature of a mismatch: which clause of the property it breaks, independent of the particular sequence."""
     prior_runs_same_ctrl = 0
@@ -254,14 +290,14 @@ def run(rep, tier):
                 continue  # re-run / split clauses are stated for fixed step sizes only
             if n not in FIXED and any(op[0] != 'new' and op[1] == seq[idx][1] for op in seq[:idx]):
                 continue
-            if tuple(dg) != refs[n]:
+            if _tup(dg) != expected(refs[n], how):
                 sig = {'kind': 'digest_differs', 'clause': clause, 'config': n}
                 cand = (len(seq), seq, idx, how, dg)
                 key = common.canon(sig)
                 if key not in best or cand[0] < best[key][1][0]:
                     best[key] = (sig, cand)
     for key, (sig, (ln, seq, idx, how, dg)) in best.items():
-        rep.violation(sig, {'sequence': seq, 'op_index': idx, 'how': how, 'digest': dg, 'reference': refs[sig['config']]}, {'seq': seq})
+        rep.violation(sig, {'sequence': seq, 'op_index': idx, 'how': how, 'digest': dg, 'reference': expected(refs[sig['config']], how), 'differs_in': differs_in(dg, expected(refs[sig['config']], how))}, {'seq': seq})
     rep.coverage.update(
         {
             'states': len(states),
@@ -284,14 +320,23 @@ def replay(rep, case):
         if how == 'exception':
             rep.violation({'kind': 'exception_in_sequence', 'error': dg[0][:80]}, {'seq': seq}, case)
             continue
-        ref = reference(n)
-        if tuple(dg) != ref:
-            rep.violation({'kind': 'digest_differs', 'clause': classify(seq, idx, how), 'config': n}, {'sequence': seq, 'op_index': idx, 'how': how, 'digest': dg, 'reference': ref}, case)
+        ref = expected(reference(n), how)
+        if _tup(dg) != ref:
+            rep.violation({'kind': 'digest_differs', 'clause': classify(seq, idx, how), 'config': n}, {'sequence': seq, 'op_index': idx, 'how': how, 'digest': dg, 'reference': ref, 'differs_in': differs_in(dg, ref)}, case)
 
 
 if __name__ == '__main__':
     if len(sys.argv) == 3 and sys.argv[1] == '--ref':
         common.silence_logging()
         common.assert_repo()
-        ctrl, P, dt = build(sys.argv[2])
-        print(json.dumps(logical_run(sys.argv[2], 'full', ctrl)))
+        name = sys.argv[2]
+        res = {}
+        ctrl, P, dt = build(name)
+        res['full'] = logical_run(name, 'full', ctrl)[0]
+        if name in FIXED:
+            for k in (1, 2):
+                a, _, _ = build(name)
+                b, _, _ = build(name)
+                r = logical_run(name, ('split', k), a, b)
+                res[f'split{k}'] = (r[0], r[1], r[2])
+        print(json.dumps(res))
